@@ -220,7 +220,15 @@ def hand_abstract_schema():
         # the whole resolver-output universe at once, per built-in scalar
         {"name": "sweepInt", "type": L(N("Int")), "args": []}, {"name": "sweepFloat", "type": L(N("Float")), "args": []},
         {"name": "sweepString", "type": L(N("String")), "args": []}, {"name": "sweepBoolean", "type": L(N("Boolean")), "args": []},
-        {"name": "sweepID", "type": L(N("ID")), "args": []}]}
+        {"name": "sweepID", "type": L(N("ID")), "args": []},
+        # arguments that are list / input-object LITERALS with variables below the top level (seeds C01-h, C16-h)
+        {"name": "pick", "type": L(N("Int")), "args": [{"name": "ids", "type": L(N("Int")), "default": None},
+                                                       {"name": "tag", "type": N("String"), "default": ("str", "t")}]},
+        {"name": "span", "type": N("Int"), "args": [{"name": "r", "type": N("Span"), "default": None},
+                                                    {"name": "rs", "type": L(N("Span")), "default": None}]}]}
+    types["Span"] = {"kind": "INPUT", "fields": [{"name": "lo", "type": N("Int"), "default": None},
+                                                 {"name": "hi", "type": N("Int"), "default": ("int", 9)},
+                                                 {"name": "steps", "type": L(N("Int")), "default": None}]}
     s = {"types": types, "query": "Query", "mutation": None, "subscription": None}
     s["resolvers"] = {("Query", f["name"]) for f in types["Query"]["fields"]} | {("A", "sh"), ("B", "sh"), ("B", "info"),
                                                                                ("Info", "deep"), ("Info", "odd"), ("Info", "odds"),
@@ -254,6 +262,14 @@ HAND_ABSTRACT_QUERIES = [
     ("{ grid cube plain { x } }", {}),
     ("{ infoGrid { x must odd } oddGrid namedGrid { name ... on A { a } } }", {}),
 ]
+# ONE document text requested several times in a row on one engine with OTHER variable values: the variables sit below
+# the top level of a list / input-object literal, no argument of the field is directly a variable
+HAND_REPEATED_DOCUMENTS = [
+    ("query ($x: Int) { pick(ids: [1, $x]) }", [{"x": 10}, {"x": 20}, {}, {"x": None}, {"x": 10}]),
+    ("query ($h: Int) { span(r: {lo: 1, hi: $h}) }", [{"h": 3}, {"h": 11}, {}, {"h": None}]),
+    ("query ($h: Int, $s: Int) { span(rs: [{lo: $s, hi: 2}, {lo: 1, steps: [1, $h]}]) pick(ids: [$h, 2], tag: \"k\") }",
+     [{"h": 3, "s": 0}, {"h": 4, "s": 1}, {"s": 5}]),
+]
 # the last two alone, for checks that must not null the whole data
 HAND_ROOT_ODD = ("{ oddRoot plain { x } }", {})
 
@@ -272,6 +288,9 @@ HAND_PARENT_SHAPES = [
     ("{ shade tone shades }", [(["shade"], "foreign_enum")]),
     ("{ shade tone shades }", [(["tone"], "foreign_enum"), (["shades"], "foreign_enum")]),
     ("{ a: shade b: tone }", [(["a"], "foreign_enum"), (["b"], "foreign_enum")]),
+    # an OBJECT that merely carries a `.name` equal to a declared value (enum.Enum member, namedtuple): not a value (seed C03-h)
+    ("{ shade tone shades }", [(["shade"], "named_enum_object")]),
+    ("{ shade tone shades }", [(["tone"], "named_enum_object"), (["shades"], "named_enum_object")]),
 ]
 
 
@@ -286,6 +305,10 @@ def hand_abstract_cases(rng, n_seeds=3):
         for _ in range(n_seeds):
             out.append({"query": q, "variables": {}, "opname": None, "kind": "query", "oracle_seed": r2.randrange(1 << 30),
                         "root": None, "adversarial": 0.0, "fail": 0.0, "faults": [(list(p), k) for p, k in faults]})
+    for q, series in HAND_REPEATED_DOCUMENTS:
+        for v in series:
+            out.append({"query": q, "variables": dict(v), "opname": None, "kind": "query", "oracle_seed": r2.randrange(1 << 30),
+                        "root": None, "adversarial": 0.0, "fail": 0.0})
     return out
 
 
@@ -759,6 +782,15 @@ class Oracle:
                 return ("ret", 7)
             if kind == "bad_typename":
                 return ("ret", {"_typename": "Nope", "__tr": "Nope"})
+            if kind == "named_enum_object":
+                own = self.s["types"].get(named_of(ftype), {})
+                v = Opaque("named:%s" % (own.get("values") or ["RED"])[0])
+                t = ftype
+                while t[0] in ("nonnull", "list"):
+                    if t[0] == "list":
+                        v = [v]
+                    t = t[1]
+                return ("ret", v)
             if kind == "foreign_enum":
                 # a value of ANOTHER enum: a sibling enum of this schema when the site is an enum position, else (and at the
                 # hand sites `tone` / `b`) a value of the introspection enum __TypeKind
@@ -835,9 +867,20 @@ class Oracle:
 REAL_OPAQUES = {}
 
 
+class NamedThing:
+    """an object with a `.name` / `.value` like an enum.Enum member -- not a string, not an enum value"""
+    def __init__(self, name):
+        self.name, self.value = name, name
+
+    def __repr__(self):
+        return "<NamedThing %s>" % self.name
+
+
 def realise(v):
     """model-side value -> real Python value handed to the engine"""
     if isinstance(v, Opaque):
+        if v.tag not in REAL_OPAQUES and v.tag.startswith("named:"):
+            REAL_OPAQUES[v.tag] = NamedThing(v.tag[6:])
         if v.tag not in REAL_OPAQUES:
             REAL_OPAQUES[v.tag] = {"bytes": b"12", "tuple": (1, 2), "set": frozenset([1]),
                                    "object": object(), "generator": (x for x in [1])}.get(v.tag, object())
